@@ -28,6 +28,7 @@ function buildCase(rng) {
   const entries = []; // default object members (source)
   const decls = ['const N0 = 3;', 'const V0 = { tag: "V0" };', 'const S0 = "s-zero";', 'const mk0 = () => V0;', 'function helperFn() { return "ret-helper"; }', 'const H = { v: { tag: "Hv" }, f: () => "ret-Hf" };'];
   const feat = [];
+  const lateDecls = [];
   const spec = { props: [] };
   const dyn = rng.pick(['static', 'static', 'static', 'identifier', 'spread', 'computedIdentKey', 'computedCallKey', 'empty']);
   for (const k of keys) {
@@ -42,7 +43,7 @@ function buildCase(rng) {
       if (fnTyped) {
         const f = rng.pick(Object.keys(FN_FORMS)); const [src] = FN_FORMS[f]();
         // exactly Function, or a union that merely contains a function type (Vue then treats a function default as a factory)
-        tsType = dyn === 'static' && rng.bool(0.3) ? rng.pick(['string | (() => string)', '(() => string) | number', '(() => string) | { x: 1 }']) : '() => string';
+        tsType = dyn === 'static' && rng.bool(0.3) ? rng.pick(['string | (() => string)', '(() => string) | number', '(() => string) | { x: 1 }']) : rng.bool(0.2) ? rng.pick(['(() => string) | any', 'unknown | (() => string)']) : '() => string';
         entry = `${keySrc}: ${src}`; feat.push(`fn:${f}${tsType === '() => string' ? '' : ':unionTyped'}`);
       }
       else { const f = rng.pick(Object.keys(VAL_FORMS)); const [src, t] = VAL_FORMS[f](); tsType = t; entry = `${keySrc}: ${src}`; feat.push(`val:${f}`); }
@@ -56,20 +57,28 @@ function buildCase(rng) {
     } else if (form === 'shorthand') {
       if (!k.ident) continue;
       // a module-level binding with the prop's name
-      if (fnTyped) { decls.push(`const ${k.key} = () => "ret-short-${k.key}";`); tsType = '() => string'; feat.push('shorthandFn'); }
-      else { decls.push(`const ${k.key} = { tag: "short-${k.key}" };`); tsType = 'object'; feat.push('shorthand'); }
+      // the binding may be declared after the defineComponent call (it is only read when Vue asks for the default)
+      // (only where the output can defer the read: a static default behind a factory. A prop typed exactly Function
+      //  gets the bare value, and mergeDefaults gets the whole object, both necessarily read when the component is defined)
+      const unionTyped = fnTyped && dyn === 'static' && rng.bool(0.3);
+      const late = dyn === 'static' && (!fnTyped || unionTyped) && rng.bool(0.4); const target = late ? lateDecls : decls;
+      if (fnTyped) { target.push(`const ${k.key} = () => "ret-short-${k.key}";`); tsType = unionTyped ? 'string | (() => string)' : '() => string'; feat.push('shorthandFn' + (late ? ':late' : '') + (unionTyped ? ':unionTyped' : '')); }
+      else { target.push(`const ${k.key} = { tag: "short-${k.key}" };`); tsType = 'object'; feat.push('shorthand' + (late ? ':late' : '')); }
       entry = k.key;
     } else feat.push('none');
     if (spelling === 'alt' && k.alt && entry) feat.push(isComputedLit ? 'key:computedLit' : 'key:altSpelling');
-    typeMembers.push(`${k.type}?: ${tsType}`);
+    const optionalMark = rng.bool(0.25) ? '' : '?';
+    typeMembers.push(`${k.type}${optionalMark}: ${tsType}`);
     if (entry) entries.push(entry);
     spec.props.push({ key: k.key, fnTyped: /=>/.test(tsType), hasDefault: !!entry });
   }
   if (!spec.props.length) return { spec };
   if (rng.bool(0.2)) { entries.push('extraKey: "ignored"'); feat.push('extraKey'); }
+  // a repeated key: the last one wins, as in any object literal
+  if (rng.bool(0.1) && spec.props.some((p) => p.hasDefault && /^[a-z]+$/.test(p.key))) { const p0 = spec.props.find((p) => p.hasDefault && /^[a-z]+$/.test(p.key)); if (!p0.fnTyped) { entries.unshift(`${p0.key}: "shadowed-first"`); feat.push('dupKey'); } }
   // dynamic forms
   let defaultSrc;
-  if (dyn === 'static') defaultSrc = `{ ${rng.shuffle(entries).join(', ')} }`;
+  if (dyn === 'static') defaultSrc = `{ ${(feat.includes('dupKey') ? entries : rng.shuffle(entries)).join(', ')} }`;
   else if (dyn === 'empty') { defaultSrc = '{}'; spec.props.forEach((p) => { p.hasDefault = false; }); }
   else if (dyn === 'identifier') { decls.push(`const DYN = { ${entries.join(', ')} };`); defaultSrc = 'DYN'; }
   else if (dyn === 'spread') { const half = Math.floor(entries.length / 2); decls.push(`const DYN = { ${entries.slice(0, half).join(', ')} };`); defaultSrc = `{ ...DYN, ${entries.slice(half).join(', ')} }`.replace(', }', ' }'); }
@@ -85,7 +94,7 @@ function buildCase(rng) {
   const setupForm = rng.pick(['arrow', 'function']);
   const param = `props: { ${typeMembers.join('; ')} } = ${defaultSrc}`;
   const setup = setupForm === 'arrow' ? `(${param}) => () => null` : `function (${param}) { return () => null; }`;
-  const src = `import { defineComponent } from "vue";\n${decls.join('\n')}\nexport const Comp = defineComponent(${setup});\nexport const EXP = () => (${defaultSrc});\n`;
+  const src = `import { defineComponent } from "vue";\n${decls.join('\n')}\nexport const Comp = defineComponent(${setup});\n${lateDecls.join('\n')}\nexport const EXP = () => (${defaultSrc});\n`;
   return { src, spec, feature: [...new Set(feat)].sort().join('+') + `|n=${nProps}|${setupForm}`, dyn };
 }
 
